@@ -10,7 +10,8 @@
  *                 DRAWS <fn> ...          caller's generator not advanced by the expected number of raw draws
  *                 ROUNDTRIP ...           xxtea_decode(xxtea_encode(v)) != v
  *                 SEED ...                random_lib_lp_init not a function of (lp, seed)
- *                 TIE <fn> ...            Poisson/Gamma differ from -log(x) of the modelled operand chain
+ *                 TIE <fn> ...            Poisson/Gamma differ from -log(x) of the modelled operand chain; Gamma(ia >= 6)
+ *                                         differs from the statement-by-statement mirror of the rejection branch
  * stdout: one JSON line of statistics.
  */
 #include "vcommon.h"
@@ -39,7 +40,9 @@ static struct lp_ctx lpv[2]; /* like the runtime's lps[]: caller = lpv[0], a nei
 static struct guarded ga, gb, gb_ref;
 
 static FILE *f_ops, *f_c, *f_or;
-static unsigned long n_lines, n_viol, n_other_checks, n_range_checks, n_draw_checks, cnt_gamma_big;
+static unsigned long n_lines, n_viol, n_other_checks, n_range_checks, n_draw_checks, cnt_gamma_big, cnt_gammabig1, cnt_fop,
+    cnt_gb_v1zero, cnt_gb_multipass, cnt_gb_tie;
+static int gamma_fixed; /* the inner loop of Gamma() rejects v1 == 0.0 (F14 repaired): observed on the implementation */
 static unsigned long cnt_next, cnt_bits, cnt_random, cnt_seed, cnt_xxtea, cnt_range, cnt_rrange, cnt_nonuni, cnt_nonuni_neg,
     cnt_onem, cnt_mul, cnt_gammax, cnt_poisson, cnt_gamma, cnt_zipf, cnt_normal, zipf_max_draws;
 static unsigned long lz_hist[65]; /* leading-one position + 1 of the raw outputs fed to Random() (0 = raw 0) */
@@ -182,6 +185,100 @@ static void probe_u1(void)
 	fprintf(f_c, "%s\n", u1_result);
 	n_lines++;
 	cnt_bits++;
+}
+
+/* ---- the rejection branch of Gamma(), mirrored statement by statement (same compiler, same flags) ------------ */
+struct gchain {
+	unsigned k; /* passes of the inner loop */
+	int stuck;
+	double v1, v2, y;
+};
+#define GCHAIN_FUEL 64u /* = Driver.gammaBig1Fuel */
+/* one inner loop + y, drawing from the caller's generator (ga.ctx) */
+static void gamma_chain(int fixed, struct gchain *c)
+{
+	double v1, v2;
+	c->k = 0;
+	c->stuck = 0;
+	c->v1 = c->v2 = c->y = 0.0;
+	for(;;) {
+		if(c->k == GCHAIN_FUEL) {
+			c->stuck = 1;
+			return;
+		}
+		v1 = Random();
+		v2 = 2.0 * Random() - 1.0;
+		c->k++;
+		if(!((fixed && v1 == 0.0) || v1 * v1 + v2 * v2 > 1.0)) break;
+	}
+	c->v1 = v1;
+	c->v2 = v2;
+	c->y = v2 / v1;
+}
+/* the whole branch; gives up (returns -1.0, *gave_up = 1) after `cap` passes of a loop */
+static double gamma_mirror(int fixed, unsigned ia, unsigned long cap, int *gave_up)
+{
+	double x, y, s;
+	double am = ia - 1;
+	unsigned long outer = 0;
+	*gave_up = 0;
+	do {
+		double v1, v2;
+		unsigned long inner = 0;
+		if(++outer > cap) { *gave_up = 1; return -1.0; }
+		do {
+			if(++inner > cap) { *gave_up = 1; return -1.0; }
+			v1 = Random();
+			v2 = 2.0 * Random() - 1.0;
+		} while((fixed && v1 == 0.0) || v1 * v1 + v2 * v2 > 1.0);
+		y = v2 / v1;
+		s = sqrt(2.0 * am + 1.0) * y;
+		x = s + am;
+	} while(x < 0.0 || Random() > (1.0 + y * y) * exp(am * log(x / am) - s));
+	return x;
+}
+/* canonical bits: every NaN -> 7ff8000000000000, -0.0 -> 0 (the Lean model has one zero and one NaN) */
+static uint64_t cbits(double d)
+{
+	if(d != d) return 0x7ff8000000000000ull;
+	if(d == 0.0) return 0;
+	return dbl_bits(d);
+}
+static const char *fclass_s(double d) { return d != d ? "nan" : isinf(d) ? (d > 0 ? "+inf" : "-inf") : "fin"; }
+static const char *fsign_s(double d) { return d != d ? "?" : d < 0 ? "-" : d == 0.0 ? "0" : "+"; }
+/* an operand for the `fop` lines: specials, random bit patterns, values near a partner's exponent */
+static double fop_operand(unsigned long i, double partner)
+{
+	static const uint64_t SP[] = {0, 0x3ff0000000000000ull, 0xbff0000000000000ull, 0x7ff0000000000000ull,
+	    0xfff0000000000000ull, 0x7ff8000000000000ull, 1, 0x8000000000000001ull, 0x000fffffffffffffull,
+	    0x0010000000000000ull, 0x7fefffffffffffffull, 0xffefffffffffffffull, 0x4000000000000000ull,
+	    0x3fe0000000000000ull, 0x3ca0000000000000ull, 0x4340000000000000ull, 0x3ff0000000000001ull,
+	    0x3fefffffffffffffull, 0x0000000000000002ull, 0x0000000000000003ull};
+	uint64_t b;
+	switch(i % 5) {
+	case 0: b = SP[vrng_below(sizeof SP / sizeof *SP)]; break;
+	case 1: b = vrng(); break;
+	case 2: { /* exponent close to the partner's: cancellation, ties */
+		uint64_t e = (dbl_bits(partner) >> 52) & 0x7ff;
+		e = (e + 2047 + vrng_below(5) - 2) % 2047;
+		b = (vrng() & 0x800fffffffffffffull) | (e << 52);
+		if(vrng_below(3) == 0) b &= ~((1ull << vrng_below(52)) - 1); /* few significant bits */
+		break;
+	}
+	case 3: { /* magnitudes around 1: the operands of the Gamma chain */
+		uint64_t e = 1023 - 64 + vrng_below(130);
+		b = (vrng() & 0x800fffffffffffffull) | (e << 52);
+		break;
+	}
+	default: { /* tiny or huge: underflow / overflow of products and quotients */
+		uint64_t e = vrng_below(2) ? vrng_below(120) : 2046 - vrng_below(120);
+		b = (vrng() & 0x800fffffffffffffull) | (e << 52);
+		break;
+	}
+	}
+	double d = bits_dbl(b);
+	if(d == 0.0) d = 0.0; /* no negative zero operand (the model has one zero; x / -0.0 would differ) */
+	return d;
 }
 
 /* ---- raw outputs of interest ------------------------------------------------------------------ */
@@ -513,11 +610,20 @@ int main(int argc, char **argv)
 		n_lines++; cnt_gammax++; cnt_gamma++;
 	}
 
-	/* (8b) Gamma(ia >= 6), the rejection branch (no Lean twin of the loop: implementation-side oracle on crafted and random
-	 * states): finite, non-negative, only the caller's generator touched. Crafted: the FIRST draw of an iteration is the raw
-	 * output 0, i.e. v1 = Random() = 0.0 (the divisor of y = v2 / v1), or the smallest / largest non-zero outputs. */
+	/* (8b) Gamma(ia >= 6), the rejection branch. Implementation-side oracle on crafted and random states: finite, non-negative,
+	 * only the caller's generator touched. Crafted: the FIRST draw of an iteration is the raw output 0, i.e. v1 = Random() = 0.0
+	 * (the divisor of y = v2 / v1), or the smallest / largest non-zero outputs; the second draw sometimes 2^63 (v2 = 0.0).
+	 * Tie with the Lean model (RandGamma.lean): the whole branch is recomputed by gamma_mirror() (the statements of Gamma(), code
+	 * version `gamma_fixed` as observed below) from the same state and must give the same bits and the same final generator state;
+	 * the libm-independent part of the FIRST pass (inner loop, v1, v2, y, am, 2am+1) goes to the correspondence diff (gammabig1). */
 	{
 		static const unsigned IA[] = {6, 7, 10, 100, 100000, 4000000000u};
+		/* which Gamma is this? the F14 state: pinned tree inf, repaired tree finite */
+		{
+			static const uint64_t F14[4] = {0x3c6ef372fe94f82aull, 0, 0x7eb08eda39c9cb72ull, 0x94d049bb133111e9ull};
+			memcpy(ga.ctx.state, F14, sizeof F14);
+			gamma_fixed = isfinite(Gamma(7));
+		}
 		for(unsigned long i = 0; i < n / 16 + 400; ++i) {
 			unsigned ia = IA[i % 6];
 			rnd_state(&ga.ctx);
@@ -525,7 +631,13 @@ int main(int argc, char **argv)
 				static const uint64_t FIRST[] = {0, 0, 0, 2, 3, ~0ull, 1ull << 63, 0};
 				uint64_t u = FIRST[(i / 6) % 8];
 				if(u == 1 && !u1_ok) u = 0;
-				ga.ctx.state[1] = craft_s1(u); /* the next raw output is u, the following ones come from the random rest */
+				if(i % 3 == 1 && (i / 48) % 2) { /* the next two raw outputs: u, then 2^63 / 2^63 +- 1 / 0 / all-ones */
+					static const uint64_t SECOND[] = {1ull << 63, (1ull << 63) + 1, (1ull << 63) - 1, 0, ~0ull, 1ull << 62};
+					uint64_t k = ga.ctx.state[3];
+					craft2(&ga.ctx, u, SECOND[(i / 96) % 6]);
+					ga.ctx.state[3] = k;
+				} else
+					ga.ctx.state[1] = craft_s1(u); /* the next raw output is u, the following ones come from the random rest */
 			}
 			struct rng_ctx before = ga.ctx, scan = before;
 			int has1 = 0;
@@ -540,7 +652,59 @@ int main(int argc, char **argv)
 			if(!(gm >= 0.0) || !isfinite(gm))
 				viol("RANGE Gamma(%u) state=%llx,%llx,%llx,%llx -> bits %llx (rejection branch: value not finite / negative)", ia,
 				    HX(before.state[0]), HX(before.state[1]), HX(before.state[2]), HX(before.state[3]), HX(dbl_bits(gm)));
+			/* tie: the mirror of the branch from the same state */
+			struct rng_ctx after = ga.ctx;
+			ga.ctx = before;
+			int gave_up;
+			double mm = gamma_mirror(gamma_fixed, ia, 100000, &gave_up);
+			cnt_gb_tie++;
+			if(gave_up || cbits(mm) != cbits(gm) || memcmp(&after, &ga.ctx, sizeof after))
+				viol("TIE Gamma(%u) state=%llx,%llx,%llx,%llx: %llx vs mirror(fixed=%d) %llx%s%s", ia, HX(before.state[0]),
+				    HX(before.state[1]), HX(before.state[2]), HX(before.state[3]), HX(dbl_bits(gm)), gamma_fixed, HX(dbl_bits(mm)),
+				    gave_up ? " (mirror gave up)" : "", memcmp(&after, &ga.ctx, sizeof after) ? " (generator states differ)" : "");
+			/* the first pass, libm-independent part */
+			ga.ctx = before;
+			struct gchain c;
+			gamma_chain(gamma_fixed, &c);
+			double am = ia - 1;
+			fprintf(f_ops, "gammabig1 %d %u ", gamma_fixed, ia);
+			print_state(f_ops, &before);
+			fputc('\n', f_ops);
+			if(c.stuck)
+				fprintf(f_c, "stuck %u ", c.k);
+			else {
+				fprintf(f_c, "%u %llx %llx %llx %d %s %s %llx %llx ", c.k, HX(cbits(c.v1)), HX(cbits(c.v2)), HX(cbits(c.y)),
+				    c.v1 == 0.0, fsign_s(c.v2), fclass_s(c.y), HX(cbits(am)), HX(cbits(2.0 * am + 1.0)));
+				cnt_gb_v1zero += c.v1 == 0.0;
+				cnt_gb_multipass += c.k > 1;
+			}
+			print_state(f_c, &ga.ctx);
+			fputc('\n', f_c);
+			n_lines++; cnt_gammabig1++;
+			ga.ctx = after;
 		}
+	}
+
+	/* (8c) the binary64 operations of the Lean float model (add, sub, mul, div, >, <, == 0.0) against the FPU, on special values,
+	 * random bit patterns, nearby exponents (cancellation, ties), subnormal and overflowing results */
+	for(unsigned long i = 0; i < n / 8 + 2000; ++i) {
+		static const char *OPS[] = {"add", "sub", "mul", "div", "div", "gt", "lt", "eq0"};
+		const char *op = OPS[i % 8];
+		double a = fop_operand(i / 8, 1.0);
+		double b = fop_operand(i / 40, a);
+		volatile double va = a, vb = b; /* no constant folding / contraction */
+		fprintf(f_ops, "fop %s %llx %llx\n", op, HX(dbl_bits(a)), HX(dbl_bits(b)));
+		switch(i % 8) {
+		case 0: fprintf(f_c, "%llx\n", HX(cbits(va + vb))); break;
+		case 1: fprintf(f_c, "%llx\n", HX(cbits(va - vb))); break;
+		case 2: fprintf(f_c, "%llx\n", HX(cbits(va * vb))); break;
+		case 3:
+		case 4: fprintf(f_c, "%llx\n", HX(cbits(va / vb))); break;
+		case 5: fprintf(f_c, "%d\n", va > vb); break;
+		case 6: fprintf(f_c, "%d\n", va < vb); break;
+		default: fprintf(f_c, "%d\n", va == 0.0); break;
+		}
+		n_lines++; cnt_fop++;
 	}
 
 	/* (9) Zipf: result in [1, limit]; generator advanced by raw draws only; Normal: only the generator checks */
@@ -603,10 +767,13 @@ int main(int argc, char **argv)
 	       "\"next\":%lu,\"bits\":%lu,\"random\":%lu,\"seed\":%lu,\"xxtea\":%lu,\"range\":%lu,\"rrange\":%lu,"
 	       "\"nonuni\":%lu,\"nonuni_negative_min\":%lu,\"onem\":%lu,\"mul\":%lu,\"gammax\":%lu,\"poisson\":%lu,\"gamma\":%lu,"
 	       "\"zipf\":%lu,\"zipf_max_draws\":%lu,\"normal\":%lu,\"range_checks\":%lu,\"other_generator_checks\":%lu,"
-	       "\"draw_count_checks\":%lu,\"nonuni_probe\":%d,\"oracle_violations\":%lu}\n",
+	       "\"draw_count_checks\":%lu,\"nonuni_probe\":%d,\"gamma_fixed\":%d,\"gamma_big\":%lu,\"gammabig1\":%lu,"
+	       "\"gammabig1_v1_zero\":%lu,\"gammabig1_multipass\":%lu,\"gamma_big_mirror_ties\":%lu,\"fop\":%lu,"
+	       "\"oracle_violations\":%lu}\n",
 	    n_lines, u1_result, n_boundary, n, lz_cov, lz_min, cnt_next, cnt_bits, cnt_random, cnt_seed, cnt_xxtea, cnt_range,
 	    cnt_rrange, cnt_nonuni, cnt_nonuni_neg, cnt_onem, cnt_mul, cnt_gammax, cnt_poisson, cnt_gamma, cnt_zipf,
-	    zipf_max_draws, cnt_normal, n_range_checks, n_other_checks, n_draw_checks, nonuni_probe, n_viol);
+	    zipf_max_draws, cnt_normal, n_range_checks, n_other_checks, n_draw_checks, nonuni_probe, gamma_fixed, cnt_gamma_big,
+	    cnt_gammabig1, cnt_gb_v1zero, cnt_gb_multipass, cnt_gb_tie, cnt_fop, n_viol);
 	fclose(f_ops); fclose(f_c); fclose(f_or);
 	return 0;
 }
